@@ -4,6 +4,7 @@ import CedarVerif.Driver.Ops.TC
 import CedarVerif.Driver.Ops.Syntax
 import CedarVerif.Driver.Ops.PolicySet
 import CedarVerif.Driver.Ops.Est
+import CedarVerif.Driver.Ops.Fmt
 /-
 Line-protocol driver: one request per line on stdin, one reply per line on stdout.
 Unknown or malformed requests answer `(bad-op)`; the driver never defaults.
@@ -18,7 +19,8 @@ def handlers : List (Sexp → Option String) := [
   Ops.handleTC,
   Ops.handleSyntax,
   Ops.handlePSet,
-  Ops.handleEst
+  Ops.handleEst,
+  Ops.handleFmt
 ]
 
 def handle (x : Sexp) : String :=
